@@ -1,4 +1,5 @@
 import Spydr.IR.Props.C14
+import Spydr.IR.Props.C14Names
 open Spydr.IR
 #print axioms Spydr.IR.init_inv
 #print axioms Spydr.IR.step_inv
@@ -17,3 +18,5 @@ open Spydr.IR
 #print axioms Spydr.IR.refused_unchanged
 #print axioms Spydr.IR.refused_idempotent
 #print axioms Spydr.IR.run_refused_prefix
+#print axioms Spydr.Names.names_refused_unchanged
+#print axioms Spydr.Names.names_refused_same_lookups
